@@ -360,6 +360,34 @@ def translate_others(prop, notes):
     return out
 
 
+# properties whose own `extra_checks` already contains a release rerun (run on demand through VERIF_RELEASE_RERUN)
+OWN_RELEASE_RERUN = ('C02', 'C05', 'C06', 'C08', 'C10', 'C11', 'C12', 'C13', 'C15', 'C19')
+
+
+def release_rerun(mod, prop, rng, limit=60000, keep=None):
+    """run the corpus and a quick-tier sample against the harness built with the RELEASE profile (debug assertions and overflow
+    checks off) and classify against model and spec again -> (violations, coverage)"""
+    import itertools
+    binpath, secs = build_harness(mod.BIN, release=True)
+    drv = os.path.join(LEAN, '.lake', 'build', 'bin', mod.DRV)
+    cases = []
+    cpath = os.path.join(ROOT, 'corpus', prop + '.cases')
+    if os.path.exists(cpath):
+        cases += [l.strip() for l in open(cpath) if l.strip() and not l.startswith('#')]
+    cases += list(itertools.islice(mod.gen(random.Random(rng.getrandbits(32)), 'quick'), limit))
+    if keep:
+        cases = [c for c in cases if keep(c)]
+    impl, _ = run_impl(binpath, cases)
+    ms = run_model(drv, cases, impl)
+    viol = []
+    for c, i, (m, s) in zip(cases, impl, ms):
+        k = classify(c, i, m, s)
+        if k:
+            viol.append(('impl-violation' if k == 'model-error' else k, c + '   [release profile]', i, m, s))
+    return viol[:50], {'release_profile': {'cases': len(cases), 'mismatches': len(viol), 'build_s': round(secs, 1),
+                                          'profile': 'release: debug-assertions=off, overflow-checks=off'}}
+
+
 def unavailable_ties(info, path=''):
     """the ties a property's translator reported as unavailable (`unavailable` / `words_unavailable` keys with a reason, or
     a `table: 'unavailable: …'` entry), searched through nested result dicts (not through `other_generated`)"""
@@ -616,12 +644,33 @@ def _run_check(prop, tier='quick', seed=None, replay=None):
     extra = {}
     if hasattr(mod, 'extra_checks') and not replay:
         # property-specific checks beyond the line protocol (compile probes etc.)
-        extra = mod.extra_checks(tier, rng, findings) or {}
+        # sources changed since the baseline (the escalation ran): also ask for the checks that depend on the BUILD PROFILE
+        # (release reruns: debug assertions and overflow checks off), which the quick tier skips on an unchanged tree
+        if esc_state:
+            os.environ['VERIF_RELEASE_RERUN'] = '1'
+        try:
+            extra = mod.extra_checks(tier, rng, findings) or {}
+        finally:
+            os.environ.pop('VERIF_RELEASE_RERUN', None)
         for v in extra.get('violations', []):
             viol.append(v)
         for tag, items in extra.get('known', {}).items():
             known.setdefault(tag, []).extend(items)
 
+    if esc_state and not replay and prop not in OWN_RELEASE_RERUN and os.environ.get('VERIF_GENERIC_RELEASE', '1') == '1':
+        # sources changed: the corpus and a quick sample once more against the RELEASE profile (debug assertions and overflow
+        # checks off) — a documented panic must not be a `debug_assert!`, an `assert!` must not hide in the dev profile only
+        try:
+            rv, rcov = release_rerun(mod, prop, rng, limit=40000)
+            for v in rv:
+                tag = mod.finding_tag(v[1].split('   [release profile]')[0], v[2], v[3], v[4]) if hasattr(mod, 'finding_tag') else None
+                if tag and findings.match(prop, tag):
+                    known.setdefault(tag, []).append(v[1:])
+                else:
+                    viol.append(v)
+            extra.setdefault('coverage', {}).update(rcov)
+        except MachineryError as e:     # the release build is a bonus: never an alarm when it cannot be built
+            notes.append('release rerun unavailable: ' + str(e)[:200])
     status = 0
     replay_path = None
     if model_errors:
